@@ -19,25 +19,42 @@ theorem SameElse.trans {cfg : Cfg σ} {d1 d2 d3 : Disk} (h1 : SameElse cfg d1 d2
     SameElse cfg d1 d3 := fun q hq => (h2 q hq).trans (h1 q hq)
 
 theorem SameElse.set (cfg : Cfg σ) (d : Disk) (c : Bytes) : SameElse cfg d (d.set cfg.path c) :=
-  fun q hq => Disk.get?_set_ne d cfg.path q c hq
+  fun q hq => DiskL.get?_set_ne d cfg.path q c hq
 
 /-- the writer is open on the active file, nothing pending, and its counter is the file's size -/
 def Opened (cfg : Cfg σ) (s : St σ) (a : Bytes) : Prop :=
   ∃ w, s.writer = some w ∧ w.buf = [] ∧ s.disk.get? cfg.path = some a ∧ w.len = a.length
 
-/-- state between two operations -/
-def WF (cfg : Cfg σ) (s : St σ) : Prop := s.writer = none ∨ ∃ a, Opened cfg s a
+/-- the writer part of a state between two operations -/
+def WFw (cfg : Cfg σ) (s : St σ) : Prop := s.writer = none ∨ ∃ a, Opened cfg s a
+
+/-- state between two operations of a built appender (it has opened its file at least once) -/
+def WF (cfg : Cfg σ) (s : St σ) : Prop := s.opened = true ∧ WFw cfg s
 
 /-- the content `get_writer` finds / leaves in the active file -/
 def openView (cfg : Cfg σ) (s : St σ) : Bytes :=
   match s.writer with
   | some _ => fileOf cfg s.disk
-  | none => if cfg.appendMode then fileOf cfg s.disk else []
+  | none => if cfg.appendMode || s.opened then fileOf cfg s.disk else []
+
+theorem openView_of_opened (cfg : Cfg σ) (s : St σ) (h : s.opened = true) : openView cfg s = fileOf cfg s.disk := by
+  unfold openView
+  cases s.writer <;> simp [h]
 
 theorem fileOf_of_get {cfg : Cfg σ} {d : Disk} {a : Bytes} (h : d.get? cfg.path = some a) : fileOf cfg d = a := by
   simp [fileOf, h]
 
-theorem getWriter_spec (cfg : Cfg σ) (s : St σ) (hwf : WF cfg s) :
+theorem getWriter_opened (cfg : Cfg σ) (s : St σ) (h : s.opened = true ∨ s.writer = none) :
+    (getWriter cfg s).1.opened = true := by
+  unfold getWriter
+  cases hw : s.writer with
+  | some w =>
+    rcases h with h | h
+    · exact h
+    · simp [hw] at h
+  | none => rfl
+
+theorem getWriter_spec (cfg : Cfg σ) (s : St σ) (hwf : WFw cfg s) :
     Opened cfg (getWriter cfg s).1 (openView cfg s) ∧ (getWriter cfg s).1.writer = some (getWriter cfg s).2 ∧
     SameElse cfg s.disk (getWriter cfg s).1.disk ∧
     (getWriter cfg s).1.tst = s.tst ∧ (getWriter cfg s).1.now = s.now := by
@@ -52,8 +69,8 @@ theorem getWriter_spec (cfg : Cfg σ) (s : St σ) (hwf : WF cfg s) :
       exact ⟨⟨w', hw, hb, by rw [fileOf_of_get hg]; exact hg, by rw [fileOf_of_get hg]; exact hl⟩, hw,
         SameElse.refl cfg _, rfl, rfl⟩
   | none =>
-    refine ⟨⟨_, rfl, rfl, Disk.get?_set_self _ _ _, ?_⟩, rfl, SameElse.set cfg _ _, rfl, rfl⟩
-    by_cases ha : cfg.appendMode <;> simp [ha]
+    refine ⟨⟨_, rfl, rfl, DiskL.get?_set_self _ _ _, ?_⟩, rfl, SameElse.set cfg _ _, rfl, rfl⟩
+    by_cases ha : (cfg.appendMode || s.opened) = true <;> simp [ha]
 
 theorem writeAndFlush_spec (cfg : Cfg σ) (s : St σ) (w : Writer) (r : Rec) (a : Bytes)
     (hw : s.writer = some w) (hb : w.buf = []) (hg : s.disk.get? cfg.path = some a) (hl : w.len = a.length) :
@@ -61,16 +78,17 @@ theorem writeAndFlush_spec (cfg : Cfg σ) (s : St σ) (w : Writer) (r : Rec) (a 
     (writeAndFlush cfg s w r).1.writer = some (writeAndFlush cfg s w r).2 ∧
     (writeAndFlush cfg s w r).2.len = (a ++ encBytes r).length ∧
     SameElse cfg s.disk (writeAndFlush cfg s w r).1.disk ∧
-    (writeAndFlush cfg s w r).1.tst = s.tst ∧ (writeAndFlush cfg s w r).1.now = s.now := by
+    (writeAndFlush cfg s w r).1.tst = s.tst ∧ (writeAndFlush cfg s w r).1.now = s.now ∧
+    (writeAndFlush cfg s w r).1.opened = s.opened := by
   have hlog := BufFile.logical_foldl_writeLoop r { disk := a, buf := [] }
   simp only [BufFile.logical, List.append_nil] at hlog
   have hfile : fileOf cfg s.disk = a := fileOf_of_get hg
   simp only [writeAndFlush, writeRec, flushW, hfile, hb]
   have h1 : fileOf cfg (s.disk.set cfg.path (List.foldl BufFile.writeLoop { disk := a, buf := [] } r).disk) =
       (List.foldl BufFile.writeLoop { disk := a, buf := [] } r).disk :=
-    fileOf_of_get (Disk.get?_set_self _ _ _)
+    fileOf_of_get (DiskL.get?_set_self _ _ _)
   rw [h1, hlog]
-  refine ⟨⟨_, rfl, rfl, Disk.get?_set_self _ _ _, ?_⟩, trivial, ?_, ?_, trivial, trivial⟩
+  refine ⟨⟨_, rfl, rfl, DiskL.get?_set_self _ _ _, ?_⟩, trivial, ?_, ?_, trivial, trivial, trivial⟩
   · simp [hl, encBytes]
   · simp [hl, encBytes]
   · exact (SameElse.set cfg _ _).trans (SameElse.set cfg _ _)
@@ -85,7 +103,7 @@ structure Rolled (cfg : Cfg σ) (fault : Nat → Bool) (d1 : Disk) (out : Out) (
 theorem process_spec (cfg : Cfg σ) (s : St σ) (a : Bytes) (len : Nat) (fault : Nat → Bool)
     (ho : Opened cfg s a) :
     ∀ p fa, p = process cfg s len fault → fa = cfg.trig.fire s.tst len s.now →
-    p.2.2.tst = fa.2 ∧ p.2.2.now = s.now ∧
+    p.2.2.tst = fa.2 ∧ p.2.2.now = s.now ∧ p.2.2.opened = s.opened ∧
     (fa.1 = .no → p.1 = .ok ∧ p.2.1 = none ∧ Opened cfg p.2.2 a ∧ p.2.2.disk = s.disk) ∧
     (fa.1 = .err → p.1 = .errTrigger ∧ p.2.1 = none ∧ Opened cfg p.2.2 a ∧ p.2.2.disk = s.disk) ∧
     (fa.1 = .yes → ∃ d1, d1.get? cfg.path = some a ∧ SameElse cfg s.disk d1 ∧
@@ -102,26 +120,26 @@ theorem process_spec (cfg : Cfg σ) (s : St σ) (a : Bytes) (len : Nat) (fault :
   | no =>
     simp only at hp
     subst hp
-    exact ⟨rfl, rfl, fun _ => ⟨rfl, rfl, ⟨w, hw, hb, hg, hl⟩, rfl⟩, fun h => by simp at h, fun h => by simp at h⟩
+    exact ⟨rfl, rfl, rfl, fun _ => ⟨rfl, rfl, ⟨w, hw, hb, hg, hl⟩, rfl⟩, fun h => by simp at h, fun h => by simp at h⟩
   | err =>
     simp only at hp
     subst hp
-    exact ⟨rfl, rfl, fun h => by simp at h, fun _ => ⟨rfl, rfl, ⟨w, hw, hb, hg, hl⟩, rfl⟩, fun h => by simp at h⟩
+    exact ⟨rfl, rfl, rfl, fun h => by simp at h, fun _ => ⟨rfl, rfl, ⟨w, hw, hb, hg, hl⟩, rfl⟩, fun h => by simp at h⟩
   | yes =>
     simp only [dropWriter, hw, flushW, hb, List.append_nil, fileOf_of_get hg] at hp
-    have hd1 : (s.disk.set cfg.path a).get? cfg.path = some a := Disk.get?_set_self _ _ _
+    have hd1 : (s.disk.set cfg.path a).get? cfg.path = some a := DiskL.get?_set_self _ _ _
     rcases hroll : cfg.roll cfg.path fault (s.disk.set cfg.path a) with ⟨res, d'⟩
     rw [hroll] at hp
     cases res with
     | ok x =>
       simp only at hp
       subst hp
-      refine ⟨rfl, rfl, fun h => by simp at h, fun h => by simp at h, fun _ => ?_⟩
+      refine ⟨rfl, rfl, rfl, fun h => by simp at h, fun h => by simp at h, fun _ => ?_⟩
       exact ⟨_, hd1, SameElse.set cfg _ _, rfl, by simp [hroll], Or.inl ⟨x, by simp [hroll], rfl, rfl⟩⟩
     | error e =>
       simp only at hp
       subst hp
-      refine ⟨rfl, rfl, fun h => by simp at h, fun h => by simp at h, fun _ => ?_⟩
+      refine ⟨rfl, rfl, rfl, fun h => by simp at h, fun h => by simp at h, fun _ => ?_⟩
       exact ⟨_, hd1, SameElse.set cfg _ _, rfl, by simp [hroll], Or.inr ⟨e, by simp [hroll], rfl, rfl⟩⟩
 
 /-- What `append` does in pre-process mode. -/
@@ -129,18 +147,19 @@ theorem append_pre_spec (cfg : Cfg σ) (s : St σ) (r : Rec) (fault : Nat → Bo
     (hpre : cfg.trig.pre = true) :
     ∀ a0 fa out s', a0 = openView cfg s → fa = cfg.trig.fire s.tst a0.length s.now →
       (out, s') = append cfg s r fault →
-    out.consult = some (a0.length, a0.length) ∧ s'.tst = fa.2 ∧ s'.now = s.now ∧
+    out.consult = some (a0.length, a0.length) ∧ s'.tst = fa.2 ∧ s'.now = s.now ∧ s'.opened = true ∧
     (fa.1 = .no → out.res = .ok ∧ out.rolled = none ∧ Opened cfg s' (a0 ++ encBytes r) ∧ SameElse cfg s.disk s'.disk) ∧
     (fa.1 = .err → out.res = .errTrigger ∧ out.rolled = none ∧ Opened cfg s' a0 ∧ SameElse cfg s.disk s'.disk) ∧
     (fa.1 = .yes → ∃ d1, d1.get? cfg.path = some a0 ∧ SameElse cfg s.disk d1 ∧
         ((∃ x, (cfg.roll cfg.path fault d1).1 = .ok x ∧ out.res = .ok ∧ out.rolled = some true ∧
-            Opened cfg s' ((if cfg.appendMode then fileOf cfg (cfg.roll cfg.path fault d1).2 else []) ++ encBytes r) ∧
+            Opened cfg s' (fileOf cfg (cfg.roll cfg.path fault d1).2 ++ encBytes r) ∧
             SameElse cfg (cfg.roll cfg.path fault d1).2 s'.disk) ∨
          (∃ e, (cfg.roll cfg.path fault d1).1 = .error e ∧ out.res = .errRoll ∧ out.rolled = some false ∧
             s'.writer = none ∧ s'.disk = (cfg.roll cfg.path fault d1).2))) := by
   intro a0 fa out s' ha0 hfa hout
   subst ha0
-  obtain ⟨ho, hw1, hse1, ht1, hn1⟩ := getWriter_spec cfg s hwf
+  obtain ⟨ho, hw1, hse1, ht1, hn1⟩ := getWriter_spec cfg s hwf.2
+  have hop1 : (getWriter cfg s).1.opened = true := getWriter_opened cfg s (Or.inl hwf.1)
   have hlen : (getWriter cfg s).2.len = (openView cfg s).length := by
     obtain ⟨w, hw, _, _, hl⟩ := ho
     rw [hw1] at hw
@@ -151,20 +170,22 @@ theorem append_pre_spec (cfg : Cfg σ) (s : St σ) (r : Rec) (fault : Nat → Bo
     rw [fileOf_of_get hg]
   have hps := process_spec cfg (getWriter cfg s).1 (openView cfg s) (openView cfg s).length fault ho _ fa rfl
     (by rw [hfa, ht1, hn1])
-  obtain ⟨hpt, hpn, hno, herr, hyes⟩ := hps
+  obtain ⟨hpt, hpn, hpo, hno, herr, hyes⟩ := hps
   rw [hn1] at hpn
+  rw [hop1] at hpo
   unfold append at hout
   simp only [hpre, if_true, hlen, hfile] at hout
   rcases hproc : process cfg (getWriter cfg s).1 (openView cfg s).length fault with ⟨res, rolled, s3⟩
-  rw [hproc] at hout hpt hpn hno herr hyes
-  simp only at hpt hpn hno herr hyes
+  rw [hproc] at hout hpt hpn hpo hno herr hyes
+  simp only at hpt hpn hpo hno herr hyes
   cases hans : fa.1 with
   | no =>
     obtain ⟨hr, hro, ho3, hd3⟩ := hno hans
     subst hr
     simp only at hout
-    have hwf3 : WF cfg s3 := Or.inr ⟨_, ho3⟩
+    have hwf3 : WFw cfg s3 := Or.inr ⟨_, ho3⟩
     obtain ⟨ho4, hw4, hse4, ht4, hn4⟩ := getWriter_spec cfg s3 hwf3
+    have hop4 : (getWriter cfg s3).1.opened = true := getWriter_opened cfg s3 (Or.inl hpo)
     have hov : openView cfg s3 = openView cfg s := by
       obtain ⟨w, hw, _, hg, _⟩ := ho3
       simp [openView, hw, fileOf_of_get hg]
@@ -173,12 +194,12 @@ theorem append_pre_spec (cfg : Cfg σ) (s : St σ) (r : Rec) (fault : Nat → Bo
     have hw44 : (getWriter cfg s3).2 = w4 := by
       rw [hw4] at hw4'
       exact Option.some.inj hw4'
-    obtain ⟨ho5, _, _, hse5, ht5, hn5⟩ := writeAndFlush_spec cfg (getWriter cfg s3).1 w4 r _ hw4' hb4 hg4 hl4
-    rw [← hw44] at ho5 hse5 ht5 hn5
+    obtain ⟨ho5, _, _, hse5, ht5, hn5, hop5⟩ := writeAndFlush_spec cfg (getWriter cfg s3).1 w4 r _ hw4' hb4 hg4 hl4
+    rw [← hw44] at ho5 hse5 ht5 hn5 hop5
     have e1 : out = { res := .ok, consult := some ((openView cfg s).length, (openView cfg s).length), rolled := rolled } := (Prod.mk.inj hout).1
     have e2 : s' = (writeAndFlush cfg (getWriter cfg s3).1 (getWriter cfg s3).2 r).1 := (Prod.mk.inj hout).2
-    refine ⟨by rw [e1], by rw [e2, ht5, ht4, hpt], by rw [e2, hn5, hn4, hpn], ?_, fun h => by simp [hans] at h,
-      fun h => by simp [hans] at h⟩
+    refine ⟨by rw [e1], by rw [e2, ht5, ht4, hpt], by rw [e2, hn5, hn4, hpn], by rw [e2, hop5, hop4], ?_,
+      fun h => by simp [hans] at h, fun h => by simp [hans] at h⟩
     intro _
     refine ⟨by rw [e1], by rw [e1, hro], by rw [e2]; exact ho5, ?_⟩
     rw [e2]
@@ -189,7 +210,8 @@ theorem append_pre_spec (cfg : Cfg σ) (s : St σ) (r : Rec) (fault : Nat → Bo
     simp only at hout
     have e1 : out = { res := .errTrigger, consult := some ((openView cfg s).length, (openView cfg s).length), rolled := rolled } := (Prod.mk.inj hout).1
     have e2 : s' = s3 := (Prod.mk.inj hout).2
-    refine ⟨by rw [e1], by rw [e2, hpt], by rw [e2, hpn], fun h => by simp [hans] at h, ?_, fun h => by simp [hans] at h⟩
+    refine ⟨by rw [e1], by rw [e2, hpt], by rw [e2, hpn], by rw [e2, hpo], fun h => by simp [hans] at h, ?_,
+      fun h => by simp [hans] at h⟩
     intro _
     exact ⟨by rw [e1], by rw [e1, hro], by rw [e2]; exact ho3, by rw [e2, hd3]; exact hse1⟩
   | yes =>
@@ -197,21 +219,22 @@ theorem append_pre_spec (cfg : Cfg σ) (s : St σ) (r : Rec) (fault : Nat → Bo
     rcases hres with ⟨x, hrx, hr, hro⟩ | ⟨e, hre, hr, hro⟩
     · subst hr
       simp only at hout
-      have hwf3 : WF cfg s3 := Or.inl hw3
+      have hwf3 : WFw cfg s3 := Or.inl hw3
       obtain ⟨ho4, hw4, hse4, ht4, hn4⟩ := getWriter_spec cfg s3 hwf3
-      have hov : openView cfg s3 = if cfg.appendMode then fileOf cfg (cfg.roll cfg.path fault d1).2 else [] := by
-        simp [openView, hw3, hd3]
+      have hop4 : (getWriter cfg s3).1.opened = true := getWriter_opened cfg s3 (Or.inl hpo)
+      have hov : openView cfg s3 = fileOf cfg (cfg.roll cfg.path fault d1).2 := by
+        rw [openView_of_opened cfg s3 hpo, hd3]
       rw [hov] at ho4
       obtain ⟨w4, hw4', hb4, hg4, hl4⟩ := ho4
       have hw44 : (getWriter cfg s3).2 = w4 := by
         rw [hw4] at hw4'
         exact Option.some.inj hw4'
-      obtain ⟨ho5, _, _, hse5, ht5, hn5⟩ := writeAndFlush_spec cfg (getWriter cfg s3).1 w4 r _ hw4' hb4 hg4 hl4
-      rw [← hw44] at ho5 hse5 ht5 hn5
+      obtain ⟨ho5, _, _, hse5, ht5, hn5, hop5⟩ := writeAndFlush_spec cfg (getWriter cfg s3).1 w4 r _ hw4' hb4 hg4 hl4
+      rw [← hw44] at ho5 hse5 ht5 hn5 hop5
       have e1 : out = { res := .ok, consult := some ((openView cfg s).length, (openView cfg s).length), rolled := rolled } := (Prod.mk.inj hout).1
       have e2 : s' = (writeAndFlush cfg (getWriter cfg s3).1 (getWriter cfg s3).2 r).1 := (Prod.mk.inj hout).2
-      refine ⟨by rw [e1], by rw [e2, ht5, ht4, hpt], by rw [e2, hn5, hn4, hpn], fun h => by simp [hans] at h,
-        fun h => by simp [hans] at h, fun _ => ?_⟩
+      refine ⟨by rw [e1], by rw [e2, ht5, ht4, hpt], by rw [e2, hn5, hn4, hpn], by rw [e2, hop5, hop4],
+        fun h => by simp [hans] at h, fun h => by simp [hans] at h, fun _ => ?_⟩
       refine ⟨d1, hg1, hse1.trans hsd1, Or.inl ⟨x, hrx, by rw [e1], by rw [e1, hro], by rw [e2]; exact ho5, ?_⟩⟩
       rw [e2, ← hd3]
       exact hse4.trans hse5
@@ -219,7 +242,7 @@ theorem append_pre_spec (cfg : Cfg σ) (s : St σ) (r : Rec) (fault : Nat → Bo
       simp only at hout
       have e1 : out = { res := .errRoll, consult := some ((openView cfg s).length, (openView cfg s).length), rolled := rolled } := (Prod.mk.inj hout).1
       have e2 : s' = s3 := (Prod.mk.inj hout).2
-      refine ⟨by rw [e1], by rw [e2, hpt], by rw [e2, hpn], fun h => by simp [hans] at h,
+      refine ⟨by rw [e1], by rw [e2, hpt], by rw [e2, hpn], by rw [e2, hpo], fun h => by simp [hans] at h,
         fun h => by simp [hans] at h, fun _ => ?_⟩
       exact ⟨d1, hg1, hse1.trans hsd1, Or.inr ⟨e, hre, by rw [e1], by rw [e1, hro], by rw [e2]; exact hw3, by rw [e2]; exact hd3⟩⟩
 
@@ -228,7 +251,7 @@ theorem append_post_spec (cfg : Cfg σ) (s : St σ) (r : Rec) (fault : Nat → B
     (hpre : cfg.trig.pre = false) :
     ∀ a1 fa out s', a1 = openView cfg s ++ encBytes r → fa = cfg.trig.fire s.tst a1.length s.now →
       (out, s') = append cfg s r fault →
-    out.consult = some (a1.length, a1.length) ∧ s'.tst = fa.2 ∧ s'.now = s.now ∧
+    out.consult = some (a1.length, a1.length) ∧ s'.tst = fa.2 ∧ s'.now = s.now ∧ s'.opened = true ∧
     (fa.1 = .no → out.res = .ok ∧ out.rolled = none ∧ Opened cfg s' a1 ∧ SameElse cfg s.disk s'.disk) ∧
     (fa.1 = .err → out.res = .errTrigger ∧ out.rolled = none ∧ Opened cfg s' a1 ∧ SameElse cfg s.disk s'.disk) ∧
     (fa.1 = .yes → ∃ d1, d1.get? cfg.path = some a1 ∧ SameElse cfg s.disk d1 ∧
@@ -236,29 +259,31 @@ theorem append_post_spec (cfg : Cfg σ) (s : St σ) (r : Rec) (fault : Nat → B
         ((∃ x, (cfg.roll cfg.path fault d1).1 = .ok x ∧ out.res = .ok ∧ out.rolled = some true) ∨
          (∃ e, (cfg.roll cfg.path fault d1).1 = .error e ∧ out.res = .errRoll ∧ out.rolled = some false))) := by
   intro a1 fa out s' ha1 hfa hout
-  obtain ⟨ho, hw1, hse1, ht1, hn1⟩ := getWriter_spec cfg s hwf
+  obtain ⟨ho, hw1, hse1, ht1, hn1⟩ := getWriter_spec cfg s hwf.2
+  have hop1 : (getWriter cfg s).1.opened = true := getWriter_opened cfg s (Or.inl hwf.1)
   obtain ⟨w, hw, hb, hg, hl⟩ := ho
   have hww : (getWriter cfg s).2 = w := by
     rw [hw1] at hw
     exact Option.some.inj hw
-  obtain ⟨ho2, hw2, hlen2, hse2, ht2, hn2⟩ := writeAndFlush_spec cfg (getWriter cfg s).1 w r _ hw hb hg hl
-  rw [← hww] at ho2 hw2 hlen2 hse2 ht2 hn2
+  obtain ⟨ho2, hw2, hlen2, hse2, ht2, hn2, hop2⟩ := writeAndFlush_spec cfg (getWriter cfg s).1 w r _ hw hb hg hl
+  rw [← hww] at ho2 hw2 hlen2 hse2 ht2 hn2 hop2
   rw [← ha1] at ho2 hlen2
   have hfile : (fileOf cfg (writeAndFlush cfg (getWriter cfg s).1 (getWriter cfg s).2 r).1.disk).length = a1.length := by
     obtain ⟨_, _, _, hg2, _⟩ := ho2
     rw [fileOf_of_get hg2]
   have hps := process_spec cfg (writeAndFlush cfg (getWriter cfg s).1 (getWriter cfg s).2 r).1 a1 a1.length fault ho2 _ fa rfl
     (by rw [hfa, ht2, hn2, ht1, hn1])
-  obtain ⟨hpt, hpn, hno, herr, hyes⟩ := hps
+  obtain ⟨hpt, hpn, hpo, hno, herr, hyes⟩ := hps
   rw [hn2, hn1] at hpn
+  rw [hop2, hop1] at hpo
   unfold append at hout
   simp only [hpre, Bool.false_eq_true, if_false, hlen2, hfile] at hout
   rcases hproc : process cfg (writeAndFlush cfg (getWriter cfg s).1 (getWriter cfg s).2 r).1 a1.length fault with ⟨res, rolled, s3⟩
-  rw [hproc] at hout hpt hpn hno herr hyes
-  simp only at hpt hpn hno herr hyes
+  rw [hproc] at hout hpt hpn hpo hno herr hyes
+  simp only at hpt hpn hpo hno herr hyes
   have e1 : out = { res := res, consult := some (a1.length, a1.length), rolled := rolled } := (Prod.mk.inj hout).1
   have e2 : s' = s3 := (Prod.mk.inj hout).2
-  refine ⟨by rw [e1], by rw [e2, hpt], by rw [e2, hpn], ?_, ?_, ?_⟩
+  refine ⟨by rw [e1], by rw [e2, hpt], by rw [e2, hpn], by rw [e2, hpo], ?_, ?_, ?_⟩
   · intro h
     obtain ⟨hr, hro, ho3, hd3⟩ := hno h
     exact ⟨by rw [e1, hr], by rw [e1, hro], by rw [e2]; exact ho3, by rw [e2, hd3]; exact hse1.trans hse2⟩
